@@ -168,8 +168,11 @@ def etcd_case(seed, i, engine):
         lines.append("bcompact %d" % floor)
         for rev in sorted(set([floor - 1, floor, max(hist.INIT + 1, floor - r.randint(2, 5)), sh.dealt, r.randint(hist.INIT + 1, sh.dealt)])):
             if rev != c16.MAGIC:
+                k = r.choice(keys)
                 lines += [c16.render_range(lo, hi, rev=rev), c16.render_range(lo, hi, rev=rev, flags="c"),
-                          c16.render_range(lo, hi, rev=rev, limit=1)]
+                          c16.render_range(lo, hi, rev=rev, limit=1),
+                          # the other way etcd clients spell "this key only": still a RANGE read, refused below the floor
+                          c16.render_range(k, k + b"\x00", rev=rev)]
         lines += [c16.render_range(lo, hi), c16.render_range(lo, hi, flags="c")]
         for _ in range(r.randint(2, 5)):
             lines += c16.gen_write_plain(r, sh, keys)
